@@ -52,7 +52,7 @@ ASSUMPTIONS = [
 ]
 REAL = ["BaseOrchestrator.get_invocations_to_run / route_call / route_calls", "Mem/SQLite orchestrators (argument index)", "ThreadRunner loop", "DistributedInvocation.run", "Task.parallelize", "BaseTrigger.execute_task", "SQLite engine"]
 STUBBED = ["thread / process scheduling", "clock", "uuid4", "busy handler"]
-PROBES = ["blocked_final", "blocked_rerouted", "same_key_pairs", "two_pollers_same_key", "retry_blocked", "batch_path_used", "auto_purge_calls", "slow_client_submission"]
+PROBES = ["blocked_final", "blocked_rerouted", "same_key_pairs", "two_pollers_same_key", "retry_blocked", "batch_path_used", "auto_purge_calls", "slow_client_submission", "key_arguments_declared_in_other_mode"]
 
 
 def plan(tier: str) -> list[dict]:
@@ -95,11 +95,17 @@ def run(seed: int, params: dict, replay: dict | None = None) -> dict:
     for i in range(n_sub):
         path = rng.choice(["call", "call", "par", "batch", "trigger", "retry"])
         kw = {"a": rng.randint(0, 1), "b": rng.randint(0, 1), "c": rng.choice([0, i]), "work": rng.choice([0.02, 0.05, 0.1]), "retry": 1 if path == "retry" else 0}
+        if subs and rng.random() < (0.5 if mode == "ARGUMENTS" else 0.15):
+            kw = dict(subs[rng.randrange(len(subs))][1])  # an exact repeat: the same key in every mode, ARGUMENTS included
         subs.append((path, kw))
     schedule = replay.get("schedule") if replay else None
+    declared_keys_other_mode = False
     opts: dict[str, Any] = {"running_concurrency": CC[mode], "reroute_on_concurrency_control": reroute, "max_retries": 2}
-    if mode == "KEYS":
+    if mode == "KEYS" or rng.random() < 0.4:
+        # key arguments may be declared whatever the running mode is (they only matter for KEYS)
         opts["key_arguments"] = key_args
+        if mode != "KEYS":
+            declared_keys_other_mode = True
     viol: list[dict] = []
     # housekeeping in some runs: finished invocations are purged almost at once by an operator thread that calls the
     # public auto_purge() while same-key work is still running (the purge must not disturb the concurrency index)
@@ -231,6 +237,8 @@ def run(seed: int, params: dict, replay: dict | None = None) -> dict:
         keys = {inv: _key(mode, key_args, {k: v for k, v in m["kw"].items()}) for inv, m in info.items()}
         same_pairs = sum(1 for a in keys for b in keys if a < b and keys[a] == keys[b])
         st["probe.same_key_pairs"] = same_pairs
+        if declared_keys_other_mode:
+            st["probe.key_arguments_declared_in_other_mode"] = 1
         if st.get("fault.slow_client_submission"):
             st["probe.slow_client_submission"] = st["fault.slow_client_submission"]
         by_inv: dict[str, list[dict]] = {}
